@@ -733,7 +733,13 @@ def chain(repo, chk):
     ]
 
     def isinst(tr, args, kwargs, n):
-        names = [norm_text(e) for e in (n.args[1].elts if isinstance(n.args[1], ast.Tuple) else [n.args[1]])]
+        kinds_node = n.args[1]
+        if isinstance(kinds_node, ast.Name):
+            # a named tuple of types at module level (_NESTED_TYPES = (tuple, list))
+            kinds_node = repo.mod(PS).toplevel_assign.get(kinds_node.id, kinds_node)
+        names = [norm_text(e) for e in (kinds_node.elts if isinstance(kinds_node, ast.Tuple) else [kinds_node])]
+        if not any(x in ("tuple", "list") for x in names):
+            raise Unmodelled("isinstance against %s: not a test for tuple / list" % names)
         kinds = tuple({"tuple": tuple, "list": list}[x] for x in names if x in ("tuple", "list"))
         return isinstance(args[0], kinds) if kinds else False
 
@@ -778,17 +784,34 @@ def chain(repo, chk):
                 else:
                     yield x
 
-        if got_layout(out) != layout(struct[1]):
-            problems.append("returned layout %s differs from the declared structure %s" % (got_layout(out), layout(struct[1])))
-        for v in leaves(out):
-            if not isinstance(v, _Vec) or v.frame != struct[0]:
-                problems.append("%r is returned, not a momentum in the rest frame of %s" % (v, struct[0]))
+        # the generator object is used batch after batch (multi_sampling, generate_toy): the second and third call on
+        # the same object must do what the first did
+        outs = [out]
+        n_first = len(problems)
+        for _ in range(2):
+            try:
+                outs.append(tr.call_fn(cls.methods["generate"], [sp.Symbol("N", positive=True)], self_obj=so))
+            except Unmodelled as e:
+                raise AnalysisError("ChainGenerator.generate not interpretable on its second / third call (%s): %s" % (struct, e))
+        for k_call, out_k in enumerate(outs):
+            tag = "" if k_call == 0 else "call %d on the same object: " % (k_call + 1)
+            if got_layout(out_k) != layout(struct[1]):
+                problems.append("%sreturned layout %s differs from the declared structure %s" % (tag, got_layout(out_k), layout(struct[1])))
+            for v in leaves(out_k):
+                if not isinstance(v, _Vec) or v.frame != struct[0]:
+                    problems.append("%s%r is returned, not a momentum in the rest frame of %s" % (tag, v, struct[0]))
+        if len(problems) > n_first and all(pr.startswith("call ") for pr in problems[n_first:]):
+            problems = problems[:n_first] + [pr + " (the first call was right: state of the generator is changed by generating)" for pr in problems[n_first:]]
         n_boosts += 1
         chk.oblige("T-chain", "structure %s: every boost uses the momentum of the particle whose rest frame the vector is in; result in rest(%s)" % (struct, struct[0]), not problems)
         if problems:
             chk.violation("T-chain", K + "_restruct_pi", "frames:%s" % (struct,), "on the decay structure %s: %s" % (struct, "; ".join(problems[:3])), file=PS, line=repo.fn(K + "_restruct_pi").lineno)
     # tree_boost's leaf: rest_vector(neg(p0), x)
     tbf = repo.fn_opt(K + "_restruct_pi.tree_boost")
+    if tbf is None:
+        # the closure-free helper may live at module level (under any name that still says tree_boost)
+        cands_ = [g for nm_, gs in repo.func_by_name.items() if "tree_boost" in nm_ for g in gs if g.mod.rel == PS]
+        tbf = cands_[0] if len(cands_) == 1 else None
     if tbf is None:
         raise AnalysisError("_restruct_pi.tree_boost vanished")
     m, px, py, pz = sp.symbols("m px py pz", positive=True)
